@@ -134,14 +134,20 @@ CHECKS = {
          "widths plus unwrapped and compared byte for byte; the oracle checks content equality and line lengths on the "
          "library's text alone.",
          "4/C13", "Rocq proof (lock-step simulation over tokens and chunks) over a hand-written model + byte-exact differential rendering + text oracle"),
- "C20": ("proof", "Theorems in coq/Props/C20.v: C20_run_inner -- the feature record does not influence run_inner for any parser/vector "
+ "C20": ("proof", "Theorems in coq/Props/C20.v: C20_bookkeeping_inert_every_parser / _every_command_level / C20_autocomplete_does_not_change_parsing -- "
+         "coq/Model/CompEval.v is the evaluator of a build WITH the autocomplete feature (every cfg(feature = autocomplete) statement of the eval "
+         "paths, state = ledger + comp: Option<Complete>, parsers may carry complete(f) / complete_shell(op)); with comp = None it computes, for "
+         "EVERY parser, state and environment, exactly what the evaluator without the feature (Model/Eval.v) computes on the parser with the completer "
+         "wrappers erased, and leaves comp = None (Lemmas/CompInert.v: mutual induction over the parser, every combinator body shown inert in its "
+         "sub-evaluators -- repetition loops, alternatives, construct!, adjacent groups with their retry loop, adjacent commands, command levels); hence "
+         "for every argument vector without a completion marker run_inner of the two builds coincide. C20_run_inner -- the feature record does not influence run_inner for any parser/vector "
          "(true after the fix: commit; the model carries the cfg switches where the code has them); with and without docgen the "
          "splitter and hence console rendering coincide for every text without a fenced code block (proved), and differ with "
          "one (refutation witness = known finding). Partial by nature: derive/batteries and the cargo build itself have no "
          "model content. Tie: the same seeded corpus is run by the harness built against /repo with feature sets none / "
          "autocomplete / autocomplete+docgen+batteries / dull-color / bright-color and the outcome lines (class, value, "
          "monochrome help and error text) are compared pairwise, plus the model differential on the reference build.",
-         "4/C20", "Rocq proof (feature switches inert in the model) + five feature builds of the harness diffed on one corpus"),
+         "4/C20", "Rocq proof (the autocomplete build's evaluator with comp = None equals the plain evaluator on the erased parser, by mutual induction; docgen switch inert without fenced code) + five feature builds of the harness diffed on one corpus"),
  "C11": ("proof", "PARTIAL by nature. Theorems in coq/Props/C11.v about the model of run / print_message / exit_code / current_args: "
          "status 0 exactly for value/help/version/completion and 1 exactly for failures (exit_code regenerated from "
          "src/error.rs), help/version/completion on stdout only, failures on stderr only with the non-empty `Error: ` prefix and (C11_message_not_empty) a non-empty text rendered by "
@@ -165,22 +171,35 @@ CHECKS = {
          "check directive shapes, quoting, and that each candidate/completer appears exactly once. Three defects found this way "
          "were repaired (fix: commits).",
          "4/C15", "Rocq proof (quote round-trip through a shell-word lexer, line discipline) + byte-exact differential of the renderers via hook + per-shell script lexers"),
- "C14": ("proof", "PARTIAL. Completion has two stages. The SECOND stage, Complete::complete (src/complete_gen.rs: from the "
-         "collected hints to the candidates), is modelled (coq/Model/Complete.v) and proved in coq/Props/C14.v: every candidate "
+ "C14": ("proof", "Completion has two stages; BOTH are modelled. FIRST stage = the hint bookkeeping threaded through every parser: "
+         "coq/Model/CompEval.v is the evaluator of a build with the `autocomplete` feature (state = ledger + comp: Option<Complete>; every "
+         "cfg(feature = autocomplete) statement of params.rs / structs.rs / complete_shell.rs / args.rs / info.rs: push_flag / push_argument / "
+         "push_metavar / push_command / push_pos_sep, touching_last_remove, no_pos_ahead, the hint plumbing of fallback / optional / many / hide / "
+         "group_help / or_else (keep_a / keep_b scan) / adjacent groups / adjacent commands, the completer wrappers complete(f) and complete_shell(op), "
+         "Doc::to_completion, the completion markers on the line (ArgScanner), check_complete and render_test). PROVED in coq/Props/C14.v: "
+         "C14_request_never_value_or_error -- the first clause of the property for EVERY parser definition of the model (all combinators arbitrarily "
+         "nested, subcommands adjacent or not, adjacent groups, completers): with a completion request of a known revision on a line that holds an "
+         "item with valid UTF-8 text, run_inner NEVER returns a parsed value and NEVER an error message (what is left besides completion output: "
+         "stdout -- the usage screen of a fallback_to_usage level entered with an empty scope -- and the model's explicit panic/fuel outcomes); by "
+         "mutual induction over the parser (Lemmas/CompNever.v: the request stays switched on with its revision, the items of the line never change, "
+         "every final failure a subcommand hands up is completion output or stdout; C14_request_kept_by_every_parser) and the level lemma "
+         "C14_level_answers_with_completion_partial; C14_hidden_parser_offers_nothing (whatever a parser under hide() pushed is dropped); "
+         "C14_command_name_typed_last (a subcommand whose name is the last item is not entered: the one hint is its name); "
+         "C14_no_request_no_completion (without a request completers and bookkeeping change nothing, = C20). SECOND stage, Complete::complete "
+         "(coq/Model/Complete.v): every candidate "
          "stems from a hint of the deepest command level entered (after `--` a positional one); names pass the name filters "
          "(empty/`-` word, exact short spelling, `--` prefix of the first long name; command prefix or short alias) and are "
          "offered in their preferred spelling, arguments as name=METAVAR; completer values carry the typed `-s=`/`--long=`; "
          "placeholders replace nothing; while an argument's value is typed no flag/argument/command name is offered, and under a "
          "typed `--name=`/`-n=` prefix every candidate completes an argument's value (C14_prefix_only_values, after fix: commit "
-         "b840250 found by the thorough tier); otherwise "
-         "every matching hint of that level is offered. Tied to the code through cfg(bpaf_verif) hooks: 600 filter cases and "
-         "800 random hint lists per run (20000 thorough) go through the library's own Complete::complete and the extracted "
-         "model and must agree candidate for candidate. The FIRST stage (hint bookkeeping threaded through every parser) is NOT modelled: "
-         "'always completion output', 'only visible names of the active command path, completer values or placeholders', "
-         "'no hidden / not-entered names' and completeness for fresh prefixes are decided by an oracle computed from the "
-         "definition's AST over every kind of partially typed line (prefixes of generated sentences + ``, `-`, `--`, name and "
-         "command prefixes, `--name` + value, `--name=b`), with value and shell completers.",
-         "4/C14", "Rocq proof of the candidate stage Complete::complete (model tied by hook-level differential) + AST-derived oracle on revision-0 completion output"),
+         "b840250); otherwise every matching hint of that level is offered. NOT a theorem (partial): that the hints pushed are exactly the visible, "
+         "not yet given names of the active path (soundness / completeness of the candidates w.r.t. the DEFINITION rather than the hints) -- decided "
+         "by the AST-derived oracle. TIE: the completion TEXT the extracted model computes (first stage + second stage + renderer) is compared BYTE FOR "
+         "BYTE with the library's on every generated case: every kind of partially typed line (prefixes of generated sentences + ``, `-`, `--`, name and "
+         "command prefixes, `--name` + value, `--name=b`), value and shell completers, requests by Args::set_comp and by a `--bpaf-complete-rev=N` item "
+         "at any position of the line, output revisions 0/1/7/8/9; plus hook-level differentials of Complete::complete (800 random hint lists) and of "
+         "the name filters (600 cases).",
+         "4/C14", "Rocq proof by mutual induction over the evaluator of the autocomplete build (request never yields a value or an error) + laws of the candidate stage; byte-exact differential of the completion text + AST-derived oracle"),
  "C12": ("proof", "PARTIAL. Theorems in coq/Props/C12.v: the entries collected for --help are EXACTLY the visible leaves of the level "
          "(`vis`: first short/long name, metavariable, env, help; positionals with help; commands; nothing under hide) in "
          "declaration order, for every parser shape (C12_items_exact); hide_usage/custom_usage leave the item lists untouched; "
@@ -245,7 +264,10 @@ CHECKS = {
          "item (retry loop fuelled; FUEL and the panic sites are explicit outcomes compared with the implementation; a hidden group "
          "without a first item is a known finding, three defects here were repaired by fix: commits -- since 1225acf "
          "check_invariants itself reports a visible group without a first item), the panic sites "
-         "of completion (compared per run; one repaired), purity (by construction in Gallina; tied by re-running). "
+         "of completion (the evaluator of the autocomplete build is modelled, Model/CompEval.v, with its panic sites as outcomes: every "
+         "completion step of every history is compared with the model byte for byte; two defects repaired: eb55015 and 71218b3 -- "
+         "Doc::first_line read later fragments from a stale payload offset and sliced inside a multi-byte character, so completion "
+         "next to a help text of several styled fragments panicked; found while transcribing Doc::to_completion), purity (by construction in Gallina; tied by re-running). "
          "Implementation side: every case under catch_unwind + watchdog; `twice` (same OptionParser, same vector) and `history` "
          "(one OptionParser: parse, completion at revisions 0/1/7/8/9 with and without an application name, html/markdown/"
          "manpage; two rounds must be identical).",
